@@ -21,7 +21,12 @@ func voleModuli() []*big.Int {
 	p25519 := new(big.Int).Sub(new(big.Int).Lsh(big.NewInt(1), 255), big.NewInt(19))
 	p256189 := new(big.Int).Sub(new(big.Int).Lsh(big.NewInt(1), 256), big.NewInt(189))
 	m127 := new(big.Int).Sub(new(big.Int).Lsh(big.NewInt(1), 127), big.NewInt(1))
-	return []*big.Int{p256, p25519, p256189, m127, big.NewInt(65537), big.NewInt(251), big.NewInt(5), big.NewInt(3), big.NewInt(2)}
+	// primes around the machine word sizes: 2^64-59, 2^64+13, 2^63-25, 2^61-1, 2^32-5, 2^31-1, 2^128-159
+	w := func(sh uint, d int64) *big.Int {
+		return new(big.Int).Add(new(big.Int).Lsh(big.NewInt(1), sh), big.NewInt(d))
+	}
+	return []*big.Int{p256, p25519, p256189, m127, big.NewInt(65537), big.NewInt(251), big.NewInt(5), big.NewInt(3), big.NewInt(2),
+		w(64, -59), w(64, 13), w(63, -25), w(61, -1), w(32, -5), w(31, -1), w(128, -159)}
 }
 
 func fieldElem(r *vrt.Rng, p *big.Int, allowBig bool) *big.Int {
@@ -46,7 +51,7 @@ func fieldElem(r *vrt.Rng, p *big.Int, allowBig bool) *big.Int {
 func init() {
 	vrt.Register(&vrt.Prop{
 		ID: "C20", Level: "exploration",
-		Rule: "VOLE: case = (vector length from the boundary list or PRNG, modulus from {P-256 prime, 2^255-19, 2^256-189, 2^127-1, 65537, 251, 5, 3, 2}, base OT in {CO, ideal}, transport in {p2p.Pipe, p2p.Conn over fragmenting tap}, 1-3 Mul calls per instance); oracle (u_i - r_i) mod p == x_i*y_i mod p for every i. " +
+		Rule: "VOLE: case = (vector length from the boundary list or PRNG, modulus from {P-256 prime, 2^255-19, 2^256-189, 2^128-159, 2^127-1, 2^64+13, 2^64-59, 2^63-25, 2^61-1, 2^32-5, 2^31-1, 65537, 251, 5, 3, 2}, base OT in {CO, ideal}, transport in {p2p.Pipe, p2p.Conn over fragmenting tap}, 1-3 Mul calls per instance); oracle (u_i - r_i) mod p == x_i*y_i mod p for every i. " +
 			"bmr.Fx: all (a,b) x repetitions; bmr.Fxk: s in {0, all-ones, random} x b; OT in {CO, COT}; 1-3 sessions of one process run concurrently, each on its own OT instance and connection, senders pausing at PRNG-chosen operations; oracle r xor x_b == a*b resp. b*s. Distinct = (kind, length, modulus, operands hash).",
 		NumCases: func(t string) int {
 			if t == "thorough" {
